@@ -90,17 +90,15 @@ def values_for(root, names, mode, r_abs):
     rec = c13.spec_record(mode, depth, lst, sres)
     follow = mode == "L" or (mode == "H" and depth == 0)
     v = {"p": path, "d": str(depth), "H": root, "P": "/".join(names)}
-    if names:
-        v["f"] = names[-1]
-        v["h"] = root.rstrip("/") + ("" if len(names) == 1 else "/" + "/".join(names[:-1])) if not root.endswith("/") or True else ""
-        # directory part of the path as printed: everything before the last component, trailing slashes dropped
-        head = path[:len(path) - len(names[-1])].rstrip("/")
-        v["h"] = head if head else ("" if path.startswith("/") else ".")
+    # %f / %h: the path as spelled, cut at its last component (trailing slashes ignored; "." and ".." are components)
+    t = path.rstrip("/")
+    if not t:
+        v["f"], v["h"] = "/", ""
+    elif "/" in t:
+        k = t.rindex("/")
+        v["f"], v["h"] = t[k + 1:], t[:k]
     else:
-        base = root.rstrip("/")
-        v["f"] = os.path.basename(base) if base and os.path.basename(base) not in ("", ) else root
-        head = base[:len(base) - len(os.path.basename(base))].rstrip("/") if base else ""
-        v["h"] = head if head else ("" if root.startswith("/") else ".")
+        v["f"], v["h"] = t, "."
     if rec is None:
         return None
     v["s"], v["n"], v["i"], v["U"], v["G"] = str(rec.st_size), str(rec.st_nlink), str(rec.st_ino), str(rec.st_uid), str(rec.st_gid)
@@ -131,7 +129,7 @@ def run(ctx):
     try:
         names = c13.build(forest.dir.decode(), rng)
         r_abs = forest.dir.decode()
-        spellings = ["r", "./r", "r/", "r//", "r/.", r_abs + "/r", ".//r"]
+        spellings = ["r", "./r", "r/", "r//", "r/.", r_abs + "/r", ".//r", "r/./", "r/dir/..", r_abs + "//r/."]
         entries = [[]] + [[n] for n in names] + [["dir", "inside"]]
         cases = []
         n = 8000 if ctx.thorough else 700
@@ -146,13 +144,6 @@ def run(ctx):
         for mode, root, ent, items in cases:
             vals = values_for(root, ent, mode, r_abs)
             if vals is None:
-                continue
-            # %h goes through Path::parent(), which drops a "/." in the middle: starting points ending in "/." are outside the
-            # property's list of spellings for %h
-            if ent and root.endswith("/.") and any(it[0] == "d" and it[1] in "h" for it in items):
-                continue
-            # outside the property's quantifier (starting points ending in "/." or "/.."): %f/%h of the starting point itself
-            if not ent and root.endswith("/.") and any(it[0] == "d" and it[1] in "fh" for it in items):
                 continue
             fmt = show(items)
             path = vals["p"]
